@@ -121,6 +121,8 @@ class Parser:
             TokenType.FLOAT: self.parse_float_literal,
             TokenType.FUNCTION: self.parse_function_extension,
             TokenType.INT: self.parse_integer_literal,
+            TokenType.LPAREN: self.parse_grouped_expression,
+            TokenType.NOT: self.parse_prefix_expression,
             TokenType.NULL: self.parse_null,
             TokenType.ROOT: self.parse_root_query,
             TokenType.CURRENT: self.parse_relative_query,
@@ -469,6 +471,7 @@ class Parser:
 
     def parse_function_extension(self, stream: TokenStream) -> Expression:
         function_arguments: List[Expression] = []
+        parenthesized_arguments: List[int] = []
         tok = stream.next_token()
 
         while stream.current.type_ != TokenType.RPAREN:
@@ -479,6 +482,9 @@ class Parser:
                     f"unexpected {stream.current.value!r}",
                     token=stream.current,
                 ) from err
+
+            if stream.current.type_ == TokenType.LPAREN:
+                parenthesized_arguments.append(len(function_arguments))
 
             expr = func(stream)
 
@@ -497,6 +503,20 @@ class Parser:
                 stream.expect_peek_not(TokenType.RPAREN, "unexpected trailing comma")
 
             stream.next_token()
+
+        # An argument starting with a parenthesis is a logical expression.
+        function = self.env.function_extensions.get(tok.value)
+        if isinstance(function, FilterFunction):
+            for idx in parenthesized_arguments:
+                if (
+                    idx < len(function.arg_types)
+                    and function.arg_types[idx] != ExpressionType.LOGICAL
+                ):
+                    raise JSONPathTypeError(
+                        f"{tok.value}() argument {idx} must not be "
+                        "a parenthesized expression",
+                        token=tok,
+                    )
 
         return FunctionExtension(
             token=tok,
